@@ -30,6 +30,35 @@ max, median, stddev_pop, stddev_samp, var_pop, var_samp). -/
 theorem agg_perm (op : AggOp) {xs ys : List Value} (h : xs.Perm ys) : aggVals op xs = aggVals op ys :=
   aggVals_perm op h
 
+/-- **min is the least, max the greatest value of the group** (Number measures; nulls apart): the result is one of the
+values and bounds all of them. -/
+theorem agg_min_max_num (xs : List Value) (q : Rat) :
+    (aggVals .min xs = .ok (.num q) → q ∈ rats (nonNull xs) ∧ ∀ r ∈ rats (nonNull xs), q ≤ r) ∧
+    (aggVals .max xs = .ok (.num q) → q ∈ rats (nonNull xs) ∧ ∀ r ∈ rats (nonNull xs), r ≤ q) := by
+  constructor
+  · intro h
+    have := pick_min_spec ratLe ratLe_trans ratLe_total _ q
+      (minmax_num false _ q (aggVals_min_eq xs _ (by simp) h))
+    exact ⟨this.1, fun r hr => by simpa [ratLe] using this.2 r hr⟩
+  · intro h
+    have := pick_max_spec ratLe ratLe_trans ratLe_total _ q
+      (minmax_num true _ q (aggVals_max_eq xs _ (by simp) h))
+    exact ⟨this.1, fun r hr => by simpa [ratLe] using this.2 r hr⟩
+
+/-- the same for Integer measures (the result stays an Integer). -/
+theorem agg_min_max_int (xs : List Value) (i : Int) :
+    (aggVals .min xs = .ok (.int i) → i ∈ ints (nonNull xs) ∧ ∀ j ∈ ints (nonNull xs), i ≤ j) ∧
+    (aggVals .max xs = .ok (.int i) → i ∈ ints (nonNull xs) ∧ ∀ j ∈ ints (nonNull xs), j ≤ i) := by
+  constructor
+  · intro h
+    have := pick_min_spec intLe intLe_trans intLe_total _ i
+      (minmax_int false _ i (aggVals_min_eq xs _ (by simp) h))
+    exact ⟨this.1, fun r hr => by simpa [intLe] using this.2 r hr⟩
+  · intro h
+    have := pick_max_spec intLe intLe_trans intLe_total _ i
+      (minmax_int true _ i (aggVals_max_eq xs _ (by simp) h))
+    exact ⟨this.1, fun r hr => by simpa [intLe] using this.2 r hr⟩
+
 /-- **one datapoint per group key**: the keys of the result are pairwise distinct (for any operand, even one
 with duplicated keys). -/
 theorem groups_nodup (spec : AggSpec) (x r : DS) (h : aggr spec x = .ok r) : r.keys.Nodup := by
